@@ -92,6 +92,9 @@ def handler(payload):
 
         def regs(self, obj):
             k = self.kind
+            if k == "xmcd":
+                # header + the complete configuration block (the merged view drops configOption1 while optionSize is 0)
+                return list(obj.header.registers) + list(obj.config_block._registers)
             if k == "fuses":
                 return obj.fuse_regs
             if k == "memcfg":
@@ -195,7 +198,8 @@ def handler(payload):
             if self.kind in PFR_KINDS:
                 return obj.export(draw=False, **kw)
             if self.kind == "fuses":
-                return obj.fuse_regs.export()
+                # the fuse map has no binary form: raw value of every top-level fuse register, big endian, in register order
+                return b"".join(r.get_value(True).to_bytes(r.width // 8, "big") for r in obj.fuse_regs)
             return obj.export()
 
         def parse(self, data):
@@ -373,10 +377,13 @@ def handler(payload):
                 out.append(("tz", fam, rev, ""))
         return out
 
-    def dump():
+    def dump(kinds=None, part=None):
         import json
         layouts, index, rows = [], {}, []
-        for (k, fam, rev, sub) in instances():
+        todo = [x for x in instances() if kinds is None or x[0] in kinds]
+        if part is not None:
+            todo = [x for i, x in enumerate(todo) if i % part[1] == part[0]]
+        for (k, fam, rev, sub) in todo:
             a = A(k, fam, rev, sub)
             if k == "tz":
                 presets = DatabaseManager().db.load_db_cfg_file(get_db(fam, rev).get_file_path(DatabaseManager.TZ, "reg_spec"))
@@ -384,7 +391,7 @@ def handler(payload):
                      "size": TrustZone.get_preset_data_size(fam, rev)}
             else:
                 obj = a.fresh()
-                d = {"kind": k, "layout": describe(a.regs(obj))}
+                d = {"kind": k, "layout": describe(obj.registers if k == "xmcd" else a.regs(obj))}
                 d.update(area_params(a, obj))
             key = json.dumps(d, sort_keys=True)
             if key not in index:
@@ -395,26 +402,13 @@ def handler(payload):
 
     # ------------------------------------------------------------------ canonical observables
     def canon_cfg(regs, cfg):
-        """get_config dictionary -> list in register order: [name, 0, str] | [name, 1, [[field, str|int]...]]"""
+        """get_config dictionary -> list in dictionary order: [name, 0, value] | [name, 1, [[field, value]...]]"""
         out = []
-        names = [r.name for r in regs]
-        if set(cfg) - set(names):
-            raise RuntimeError("configuration with unknown register names: " + str(sorted(set(cfg) - set(names))[:3]))
-        for r in regs:
-            if r.name not in cfg:
-                continue
-            v = cfg[r.name]
+        for name, v in cfg.items():
             if isinstance(v, dict):
-                fl = []
-                fnames = [bf.name for bf in r._bitfields]
-                if set(v) - set(fnames):
-                    raise RuntimeError("configuration with unknown bit-field names")
-                for bf in r._bitfields:
-                    if bf.name in v:
-                        fl.append([bf.name, v[bf.name]])
-                out.append([r.name, 1, fl])
+                out.append([name, 1, [[fn, fv] for fn, fv in v.items()]])
             else:
-                out.append([r.name, 0, v])
+                out.append([name, 0, v])
         return out
 
     def snap(regs):
@@ -487,7 +481,7 @@ def handler(payload):
             res["size_field"] = g(lambda: obj.header.xmcd_size)
         if a.kind == "fuses":
             res["script"] = g(lambda: obj.create_fuse_script())
-        if "ok" in e1:
+        if "ok" in e1 and a.kind != "fuses":
             b = bytes.fromhex(e1["ok"])
             p = g(lambda: a.parse(b))
             if "err" in p:
@@ -525,7 +519,12 @@ def handler(payload):
                     else:
                         res["config_text"] = {"ok": 1}
                         res["schema4"] = g(lambda: (a.validate(y4["ok"]), 1)[1])
-                        res["export4"] = g(lambda: hx(a.export(a.load(y4["ok"]))))
+                        o4 = g(lambda: a.load(y4["ok"]))
+                        if "err" in o4:
+                            res["export4"] = o4
+                        else:
+                            res["export4"] = g(lambda: hx(a.export(o4["ok"])))
+                            res["snap4"] = g(lambda: snap(a.regs(o4["ok"])))
         if a.kind in PFR_KINDS:
             if c.get("seal"):
                 res["sealed"] = g(lambda: hx(a.load(cfg).export(add_seal=True, draw=False)))
@@ -545,18 +544,26 @@ def handler(payload):
                 cf5 = g(lambda: a.config(p5["ok"]))
                 if "ok" in cf5:
                     res["get_config5"] = g(lambda: canon_cfg(a.regs(p5["ok"]), cf5["ok"][a.skey()]))
-                    res["export6"] = g(lambda: hx(a.export(a.load(cf5["ok"]))))
+                    o6 = g(lambda: a.load(cf5["ok"]))
+                    if "err" in o6:
+                        res["export6"] = o6
+                    else:
+                        res["export6"] = g(lambda: hx(a.export(o6["ok"])))
+                        res["snap6"] = g(lambda: snap(a.regs(o6["ok"])))
                 else:
                     res["get_config5"] = cf5
         return res
 
     if payload["op"] == "dump":
-        return dump()
+        return dump(payload.get("kinds"), payload.get("part"))
     if payload["op"] == "run":
         out = []
+        import time
         for c in payload["cases"]:
+            t0 = time.time()
             r = guarded(lambda: run_case(c), seconds=300)
             if r[0] == "ok":
+                r[1]["elapsed"] = round(time.time() - t0, 3)
                 out.append(r[1])
             else:
                 out.append({"runner": {"err": r[1], "exc": r[2] if len(r) > 2 else ""}})
